@@ -4,6 +4,14 @@
 -/
 namespace Gen.C09
 
+def budgetIncreaseWhile (rule : Rat → List Nat) (feasible exhaustive : List Nat → Bool) (exhaustiveStop : Bool) (step bound : Rat) : Nat → Rat → (List Nat) → (List Nat)
+  | 0, cur, prev => prev
+  | fuel + 1, cur, prev => if (decide (cur ≤ bound)) then (if (!(feasible (rule cur))) then prev else (if (exhaustiveStop && (exhaustive (rule cur))) then (rule cur) else (budgetIncreaseWhile rule feasible exhaustive exhaustiveStop step bound fuel ((cur + step)) ((rule cur))))) else prev
+
+def budgetIncreaseAllWhile (rule : Rat → List (List Nat)) (feasible exhaustive : List Nat → Bool) (exhaustiveStop : Bool) (step bound : Rat) : Nat → Rat → (List (List Nat)) → (List (List Nat))
+  | 0, cur, prev => prev
+  | fuel + 1, cur, prev => if (decide (cur ≤ bound)) then (if (((rule cur)).any (fun o => (!(feasible o)))) then prev else (if (exhaustiveStop && (((rule cur)).any (fun o => (exhaustive o)))) then (rule cur) else (budgetIncreaseAllWhile rule feasible exhaustive exhaustiveStop step bound fuel ((cur + step)) ((rule cur))))) else prev
+
 def defaultStep (budget : Rat) : Rat := (budget * ((1 : Rat) / (100 : Rat)))
 
 def defaultBound (budget n : Rat) : Rat := (budget * (n + (1 : Rat)))
